@@ -28,6 +28,8 @@ OBLIGATIONS = [
     (P + "raw_filter_sees_each_byte_once", "raw content filter: concatenation of the chunks it is given = the first content_length bytes, each once, in order; completes exactly at content_length"),
     (P + "multipart_filter_sees_each_part_once", "multipart filter, well-formed body, any chunking: callbacks minus progress reports = per part on_new_file(size 0), on_data_ready(full size), in order, then on_end_of_content"),
     (P + "filter_events_chunking_independent", "for every body the filter callbacks other than progress reports do not depend on the chunking"),
+    (P + "readback_exact", "seekg(off) + read to EOF on a part returns exactly the bytes written from off on, in memory or spilled (block refills), any bytes incl. 0xFF at block boundaries"),
+    (P + "delivery_reads_back_exactly", "form fields copied through read_file (after a filter may have read the part to its end) and files read by the application = deliver parts, byte for byte"),
     (P + "malformed_urlencoded_refused", "a urlencoded POST body within limits with an item without '=' or with an empty name is refused with 400 (D11, fixed)"),
     (P + "urlencoded_roundtrip", "parse_form_urlencoded applied to k=v&... written by util::urlencode returns exactly the pairs, in order"),
     (P + "urlencoded_request_roundtrip", "... and the request delivers them as post() under any chunking"),
@@ -320,7 +322,7 @@ class Gen:
                         buf = rng.choice((1, 2, 7, 64, 1024, 65536, rng.randrange(1, 65537)))
                     else:
                         buf = rng.choice((512, 1024, 4096, 65536, rng.randrange(max(512, cl // 64), 65537)))
-                    flt = rng.choice((0, 0, 2)) if cl < 4000 else 0
+                    flt = rng.choice((0, 0, 2, 4, 4)) if cl < 4000 else rng.choice((0, 0, 4))
                     self.rq(flt, ct, cl, climit, mlimit, mem, disk, buf, b"", chs, kind="rq-wf", expect=exp,
                             group=(gid, ci), body=body, parts=parts)
             # raw filter sees every byte once
@@ -335,6 +337,50 @@ class Gen:
                 d = self.dflt
                 self.rq(3, ct, cl, d["climit"], d["mlimit"], d["mem"], True, d["buf"], b"a=1&b=2", chunk_at(body, cuts_random(rng, cl, 2)),
                         kind="rq-wf", expect=expect_request(parts, cl, d["climit"], d["mlimit"], d["mem"], True), group=(gid, "plain"), body=body)
+
+    # ---- read-back: parts spilled to a temporary file (and kept in memory) whose bytes at the get-area refill
+    #      boundaries (multiples of file_buffer::buffer_size = 1024 from the seek position; the in-memory growth steps
+    #      64,128,...) are 0xFF / 0x00 / 0x80 / 0x1A; fields and files; read back by the application, by read_file and
+    #      by a filter
+    def readback_cases(self, n):
+        rng = self.rng
+        for it in range(n):
+            key = bytes(rng.choice(b"abcXYZ019") for _ in range(rng.randrange(1, 12)))
+            ct = b"multipart/form-data; boundary=" + key
+            delim = b"\r\n--" + key
+            parts = []
+            for _ in range(rng.choice((1, 1, 2, 3))):
+                size = rng.choice((1, 63, 64, 65, 1023, 1024, 1025, 2048, 2049, 3072, 4097, rng.randrange(1, 9000)))
+                special = rng.choice((255, 255, 255, 0, 128, 26))
+                fill = rng.choice((b"x", b"\xff", b"\x00", bytes([rng.randrange(256)])))
+                d = bytearray(fill * size) if rng.random() < 0.5 else bytearray(rng.randrange(256) for _ in range(size))
+                for base in (0, 1, 1023, 1024, 1025, size // 2, 64):
+                    for pos in range(base % 1024 if base < 1024 else 0, size, 1024):
+                        if rng.random() < 0.8:
+                            d[pos] = special
+                    if base < size and rng.random() < 0.5:
+                        d[base] = special
+                for pos in range(0, size, 1024):
+                    d[pos] = special if rng.random() < 0.9 else d[pos]
+                d = bytes(d)
+                while delim in d:
+                    i = d.index(delim)
+                    d = d[:i] + b"Z" + d[i + 1:]
+                isfile = rng.random() < 0.5
+                parts.append({"name": rand_name(rng), "filename": b"f.bin" if isfile else b"", "mime": b"application/octet-stream" if isfile else b"", "data": d})
+            headers = [enc_header_canonical(p) for p in parts]
+            body = enc_body(key, parts, headers)
+            cl = len(body)
+            big = max(len(p["data"]) for p in parts)
+            gid = f"rb{it}"
+            for mem in (0, 10, 1023, 1024, max(0, big - 1), big, 131072):
+                pts = cuts_random(rng, cl, rng.choice((0, 1, 5)))
+                self.add("mp %s %d 1 %s" % (hx(ct), mem, " ".join(hx(x) for x in chunk_at(body, pts))), kind="mp", parts=parts)
+                exp = expect_request(parts, cl, cl + 10, cl + 10, mem, True)
+                for flt in (0, 4, 2):
+                    buf = rng.choice((64, 700, 1024, 4096, 65536))
+                    self.rq(flt, ct, cl, cl + 10, cl + 10, mem, True, buf, b"", chunk_at(body, cuts_random(rng, cl, rng.choice((0, 2)))),
+                            kind="rq-wf", expect=exp, group=(gid, mem), body=body, parts=parts)
 
     # ---- malformed multipart
     def malformed_cases(self, n):
@@ -505,11 +551,13 @@ def main():
         load_corpus(g)
         if thorough:
             g.multipart_cases(220, 24, big_size=262144)
+            g.readback_cases(150)
             g.malformed_cases(2500)
             g.ct_cases(4000)
             g.form_cases(800)
         else:
             g.multipart_cases(36, 6, big_size=40000)
+            g.readback_cases(25)
             g.malformed_cases(350)
             g.ct_cases(500)
             g.form_cases(120)
@@ -549,7 +597,7 @@ def main():
             o = out_i[k]
             kind = m.get("kind")
             head = o.split(" get ")[0] if " get " in o else o
-            for flag in ("DELIVERED-ON-ERROR", "DELIVERED-EARLY", "TEMP-FILES-LEFT", "BAD-ROOM", "NO-EARLY-MAIN", "stuck", "exception", "pointer-out-of-range", "eof-with-rest", "!size="):
+            for flag in ("DELIVERED-ON-ERROR", "DELIVERED-EARLY", "TEMP-FILES-LEFT", "BAD-ROOM", "NO-EARLY-MAIN", "stuck", "exception", "pointer-out-of-range", "eof-with-rest", "!size=", "!reread@", "FILTER-SHORT-READ"):
                 if flag in o:
                     bad.append((k, "harness flag " + flag))
             if kind == "mp":
@@ -560,7 +608,12 @@ def main():
             if kind in ("rq-wf", "rq-long", "rq-short", "rq-form-short", "rq-form-limit") and m.get("expect"):
                 if head != m["expect"]:
                     bad.append((k, f"expected `{m['expect'][:120]}`"))
-            if kind == "rq-wf" and cs.startswith("rq 2 ") and head.startswith("status 200"):
+            if kind == "rq-wf" and cs.startswith("rq 4 ") and head.startswith("status 200"):
+                # the reading filter must have got every part's content, byte for byte, out of file.data() in on_data_ready
+                mm = re.search(r" rd (\S+)", o)
+                if not mm or mm.group(1) != hx(b"".join(p["data"] for p in m_parts(m, cs))):
+                    bad.append((k, "a multipart filter reading file.data() in on_data_ready did not get the parts' contents byte for byte"))
+            if kind == "rq-wf" and cs.startswith(("rq 2 ", "rq 4 ")) and head.startswith("status 200") and (len(cs) < 20000 or cs.startswith("rq 2 ")):
                 # multipart filter: every part announced once (on_new_file, size 0) and completed once (on_data_ready, its size),
                 # in order, progress sizes never decreasing within a part, then on_end_of_content
                 mm = re.search(r" ev (\S+)", o)
